@@ -1,6 +1,29 @@
 use sim::spec::RunSpec;
 
+struct StderrLogger;
+impl log::Log for StderrLogger {
+    fn enabled(&self, _m: &log::Metadata) -> bool {
+        true
+    }
+    fn log(&self, r: &log::Record) {
+        eprintln!(
+            "[{}] {} {}: {}",
+            std::thread::current().name().unwrap_or("?"),
+            r.level(),
+            r.target(),
+            r.args()
+        );
+    }
+    fn flush(&self) {}
+}
+static LOGGER: StderrLogger = StderrLogger;
+
 fn main() {
+    // Debugging aid only (never used by checks): SIM_LOG=trace|debug|info prints mmtk-core's log.
+    if let Ok(l) = std::env::var("SIM_LOG") {
+        let _ = log::set_logger(&LOGGER);
+        log::set_max_level(l.parse().unwrap_or(log::LevelFilter::Debug));
+    }
     let args: Vec<String> = std::env::args().collect();
     let mut seed: u64 = 1;
     let mut focus = "C01".to_string();
